@@ -11,7 +11,8 @@ def family(seed, n_scn, users_per):
     docs = []
     rnd = random.Random(seed * 1000003 + 3)
     for k in range(n_scn):
-        s = scen.Scn("c03-%d" % k, seed=seed * 100 + k)
+        # every other scenario stays in the 2.0 / 2.0.1 era (2.0.2 beyond the chain), where small-cap destinations are still open
+        s = scen.Scn("c03-%d" % k, seed=seed * 100 + k, sched=(dict(scen.LIVE, V202=60, OneWaySmall=60) if k % 2 else None))
         users = [s.key("A%d" % i, "rcde" if rnd.random() < 0.2 else "ed") for i in range(1, users_per + 1)]
         sink = s.key("Z1")
         scale = rnd.choice([1, 7, 10**4, 10**8, 3 * 10**9])
@@ -32,7 +33,7 @@ def family(seed, n_scn, users_per):
             for u in users:
                 t = rnd.choice(["PEG", "pUSD", "pXBT"])
                 bal = s.B(u, t)
-                shape = rnd.choice(["one", "one", "two_same", "two_same", "three", "self", "conv_spend", "mixed", "zero", "selfret", "selfret", "illsum"])
+                shape = rnd.choice(["one", "one", "two_same", "two_same", "three", "self", "conv_spend", "mixed", "zero", "selfret", "selfret", "illsum", "pegmix", "pegmix"])
                 around = lambda b: max(0, rnd.choice([b - 1, b, b + 1, b // 2, 2 * b, b - rnd.randint(0, 3), 1, 0]))
                 if shape == "one":
                     a = around(bal)
@@ -55,6 +56,12 @@ def family(seed, n_scn, users_per):
                     s.entry(h, u, [{"t": t, "amt": a, "to": [(u, a)]}, {"t": t, "amt": b2, "to": [(sink, b2)]}])
                     if a <= bal and b2 <= bal:
                         s.add(u, t, -b2); s.add(sink, t, b2)
+                elif shape == "pegmix":
+                    # a funded batch that mixes a conversion into PEG (refused since 2.0) with a transfer or another conversion: nothing of it may be applied
+                    a = max(1, s.B(u, "pUSD") // 10)
+                    other = rnd.choice([{"t": "pUSD", "amt": a, "to": [(sink, a)]}, {"t": "pUSD", "amt": a, "conv": "pXBT"}])
+                    pegc = {"t": "pUSD", "amt": a + 1, "conv": "PEG"}
+                    s.entry(h, u, [other, pegc] if rnd.random() < 0.5 else [pegc, other])
                 elif shape == "selfret":
                     # part of the first input comes back to the sender, the second transaction draws on what is really left
                     scen.self_return(s, rnd, h, u, t, sink)
